@@ -78,7 +78,10 @@ function wrap(t, ctx) {
 export function renderProps(props, index) {
   const parts = [];
   for (const p of props) {
-    const doc = p.doc ? (p.doc.kind === "line" ? renderDoc(p.doc) : renderDoc(p.doc).trimEnd() + " ") : "";
+    // beff reads a JSDoc comment as the description of the member that starts on the NEXT line; half of
+    // the time it is put there, otherwise on the same line (where it is an ordinary comment)
+    const own = p.doc && p.doc.kind === "jsdoc" && (p.name.length + String(p.doc.text).length) % 2 === 0;
+    const doc = p.doc ? (p.doc.kind === "line" ? renderDoc(p.doc) : own ? "\n" + renderDoc(p.doc) : renderDoc(p.doc).trimEnd() + " ") : "";
     parts.push(`${doc}${p.ro ? "readonly " : ""}${renderKey(p.name, p.quote)}${p.opt ? "?" : ""}: ${renderType(p.t)}`);
   }
   if (index) parts.push(`[${index.pname || "key"}: ${renderType(index.key)}]: ${renderType(index.val)}`);
